@@ -326,6 +326,72 @@ func c06Engine(c *Ctx, syms []c06Sym, set []int) (evals int64) {
 	return evals
 }
 
+// c06DocOnly: exception rules whose modifiers apply to documents only
+// ($elemhide, $generichide, $genericblock, $urlblock, $jsinject, $content,
+// $extension) and whose pattern matches the URL of a *sub-request* take no part
+// in that sub-request's verdict.
+func c06DocOnly(c *Ctx) (evals int64) {
+	base := []srule{{false, c06Pat, nil}, {false, c06Pat, []string{"domain=src.org"}}, {false, c06Pat, []string{"important"}}, {true, c06Pat, nil}}
+	var docOnly []srule
+	for _, m := range []string{"elemhide", "generichide", "genericblock", "urlblock", "jsinject", "content", "extension", "genericblock,important", "urlblock,important"} {
+		docOnly = append(docOnly, srule{true, c06Pat, strings.Split(m, ",")})
+	}
+	for bmask := 0; bmask < 1<<len(base); bmask++ {
+		var bs []srule
+		for i, b := range base {
+			if bmask&(1<<i) != 0 {
+				bs = append(bs, b)
+			}
+		}
+		wantWithSrc := c06Reference(bs, nil, false)
+		var noDomain []srule
+		for _, b := range bs {
+			if !b.has("domain") {
+				noDomain = append(noDomain, b)
+			}
+		}
+		wantNoSrc := c06Reference(noDomain, nil, false) // $domain rules need a source
+		for _, d := range docOnly {
+			for _, first := range []bool{true, false} {
+				var lines []string
+				if first {
+					lines = append(lines, d.text())
+				}
+				for _, b := range bs {
+					lines = append(lines, b.text())
+				}
+				if !first {
+					lines = append(lines, d.text())
+				}
+				st := stringStorage(joinLines(lines) + "\n")
+				e := urlfilter.NewEngine(st)
+				ne := urlfilter.NewNetworkEngine(st)
+				for _, src := range []string{c06Src, ""} {
+					for _, t := range []rules.RequestType{rules.TypeScript, rules.TypeImage, rules.TypeSubdocument} {
+						req := rules.NewRequest(c06URL, src, t)
+						want := wantWithSrc
+						if src == "" {
+							want = wantNoSrc
+						}
+						evals++
+						b1 := e.MatchRequest(req).GetBasicResult()
+						b2, _ := ne.Match(req)
+						for which, b := range []*rules.NetworkRule{b1, b2} {
+							if got := c06ClassOfRule(b); got != want {
+								c.Run.Violate(ev.Violation{Pred: "document-only-exception-ignored-for-sub-requests", Sig: map[string]any{"lines": lines, "type": int(t), "source": src, "engine": which},
+									What:   fmt.Sprintf("%s over %v, request %s from %q type %d: %s (%s); the document-only exception takes no part, the other rules give %s", []string{"Engine.MatchRequest", "NetworkEngine.Match"}[which], lines, c06URL, src, t, renderNetText(b), c06ClassNames[got], c06ClassNames[want]),
+									Replay: map[string]any{"doc_only": true}})
+								return evals
+							}
+						}
+					}
+				}
+			}
+		}
+	}
+	return evals
+}
+
 // c06Composition: the engine's verdict for a request is the documented
 // precedence applied to the rules that match the request and the document-level
 // rules that match its referrer asked as a source-less document request --
@@ -401,6 +467,10 @@ func init() {
 			parsed[i] = s.s.parse()
 		}
 		if c.Replay != nil {
+			if dl, _ := c.Replay["doc_only"].(bool); dl {
+				c06DocOnly(c)
+				return
+			}
 			if cp, _ := c.Replay["composition"].(bool); cp {
 				c06Composition(c)
 				return
@@ -493,6 +563,7 @@ func init() {
 		c.Run.Set("engine_evaluations", engEvals)
 		c.Run.Set("evaluations", evals+engEvals)
 		c.Run.Set("distinct_nontrivial", nontrivial)
+		c.Run.Set("document_only_layer_evaluations", c06DocOnly(c))
 		compEvals := c06Composition(c)
 		c.Run.Set("composition_evaluations", compEvals)
 		c.Run.Set("rule", fmt.Sprintf("every multiset of <=%d rules over %d symbols (request-level: exception x important x $domain, $dnsrewrite, $badfilter twins, $stealth; referrer-level: urlblock/genericblock/document/elemhide/+important/+badfilter), request- and referrer-level lists each in every distinct permutation, through NewMatchingResult and GetDNSBasicRule; every set of <=3 symbols in every line order and every split into two lists through Engine, NetworkEngine and DNSEngine; composition layer: every set of <=3 of 13 rules (incl. $domain-restricted document-level exceptions) in both line orders x 18 requests (3 types x referrer none/same URL/same host/sub-domain/other host/other path): Engine.MatchRequest == precedence over the rules matching the request and the source-less referrer lookup; non-trivial = at least two rules", maxSize, len(syms)))
